@@ -39,7 +39,7 @@ type script struct {
 	Place   string `json:"place"`   // start | idle | mid | blockedFull
 	K       int    `json:"k"`       // writeFail / readFail: the k-th transport write / read after set-up fails; localCloseReason: 1 = the
 	// transport write of the close frame returns late (after the peer reacted to the frame)
-	Delay   int    `json:"delay"`   // mid: microseconds before the event
+	Delay int `json:"delay"` // mid: microseconds before the event
 }
 
 type ev struct {
@@ -110,6 +110,9 @@ type faultConn struct {
 	closeCalls  atomic.Int32
 	triggered   atomic.Bool
 	inRead      atomic.Int32
+	holdRead    atomic.Bool   // the next transport read that returns data is held back until readRelease is closed
+	readHeld    chan struct{} // closed when a read is being held
+	readRelease chan struct{}
 }
 
 func (c *faultConn) Write(b []byte) (int, error) {
@@ -149,7 +152,15 @@ func (c *faultConn) Read(b []byte) (int, error) {
 			return 0, errors.New("injected transport read failure")
 		}
 	}
-	return c.Conn.Read(b)
+	n, err := c.Conn.Read(b)
+	if n > 0 && c.holdRead.CompareAndSwap(true, false) {
+		// the bytes are off the socket; the call returns to the read pump only when the script says so
+		c.l.add("NetReadHeld", 0, n, "")
+		close(c.readHeld)
+		<-c.readRelease
+		c.l.add("NetReadReleased", 0, n, "")
+	}
+	return n, err
 }
 
 func (c *faultConn) Close() error {
@@ -265,7 +276,7 @@ func runScript(s script) *result {
 		if err != nil {
 			return nil, err
 		}
-		fc = &faultConn{Conn: c, l: l, release: make(chan struct{}), closed: make(chan struct{})}
+		fc = &faultConn{Conn: c, l: l, release: make(chan struct{}), closed: make(chan struct{}), readHeld: make(chan struct{}), readRelease: make(chan struct{})}
 		return fc, nil
 	}}
 	conn, resp, err := d.Dial("ws"+strings.TrimPrefix(srv.URL, "http"), nil)
@@ -320,6 +331,24 @@ func runScript(s script) *result {
 			l.add("CloseStart", 0, 1, "")
 			cr := vh.Call(callDeadline, func() { sut.CloseDataConnection(4001, "close") })
 			l.add("CloseEnd", 0, 1, map[bool]string{true: "hang", false: "ok"}[cr.Hung])
+		case "localCloseLateRead":
+			// the peer's frame 7 is read off the socket, the read call is held; local close; then the read returns
+			fc.holdRead.Store(true)
+			peerCmd <- "in7"
+			select {
+			case <-fc.readHeld:
+			case <-time.After(2 * time.Second):
+				l.add("SetupFailed", 0, 0, "the frame never arrived")
+			}
+			reason := ""
+			if s.K == 1 {
+				reason = "close"
+			}
+			l.add("CloseStart", 0, s.K, "")
+			cr := vh.Call(callDeadline, func() { sut.CloseDataConnection(4001, reason) })
+			l.add("CloseEnd", 0, s.K, map[bool]string{true: "hang", false: "ok"}[cr.Hung])
+			close(fc.readRelease)
+			time.Sleep(30 * time.Millisecond)
 		case "peerClose":
 			code := closeCodes[(s.K+len(closeCodes)-1)%len(closeCodes)]
 			l.add("PeerClose", 0, code, "")
